@@ -22,6 +22,7 @@ EXPLANATION = (
 )
 
 MOD = "hta.analyzers.critical_path_analysis"
+CP = MOD
 
 
 def _flows_from(func, expr, pred, depth=0):
@@ -239,140 +240,317 @@ def run(db: ProgramDB, chk) -> None:
            isinstance(targ, ast.Constant) and targ.value is None, m.loc(inst_call), found=ast.unparse(targ) if targ is not None else None, accepted="None")
 
     # ------------------------------------------------------------- R2 artefact agreement
-    roles_s, roles_r = {}, {}
-    # csv
-    tc = H.calls_named(save, "to_csv")
-    rc = H.calls_named(restore, "read_csv")
-    if len(tc) != 1 or len(rc) != 1:
-        raise AnalysisError("expected one to_csv in save and one read_csv in restore")
-    roles_s["trace_csv"] = _path_name(save, tc[0].args[0])
-    roles_r["trace_csv"] = _path_name(restore, rc[0].args[0])
-    chk.ob("C19.R2-artefacts", "csv written from self.trace_df", H.is_self_attr(tc[0].func.value, "trace_df"), m.loc(tc[0]),
-           found=ast.unparse(tc[0].func.value), accepted="self.trace_df")
-    idx_label = lit(kwarg(tc[0], "index_label"))
-    idx_on = lit(kwarg(tc[0], "index"), True)
-    si = [c for c in H.calls_named(restore, "set_index") if _flows_from(restore, c.func.value, lambda x: x is rc[0]) or c.func.value is rc[0]]
-    si_col = lit(si[0].args[0]) if si and si[0].args else None
-    chk.ob("C19.R2-artefacts", "csv index label = set_index column", bool(idx_on) and idx_label is not None and idx_label == si_col,
-           m.loc(tc[0]), found={"index": idx_on, "index_label": idx_label, "set_index": si_col},
-           accepted="index written under a label, and that label passed to set_index",
-           why="otherwise the restored trace frame is not indexed by event id and every .loc[ev_idx] lookup breaks")
-    trace_target = [a for a, v in restored_other.items() if _flows_from(restore, v, lambda c: c is rc[0]) or (isinstance(v, ast.Call) and any(x is rc[0] for x in ast.walk(v)))]
-    chk.ob("C19.R2-artefacts", "csv restored into trace_df", trace_target == ["trace_df"], m.loc(rc[0]), found=trace_target, accepted=["trace_df"])
-    # pickles
-    dumps = H.calls_named(save, "pickle.dump")
-    loads = H.calls_named(restore, "pickle.load")
-    for c in dumps:
-        obj, fh = c.args[0], H.name_id(c.args[1])
-        op = _open_of(save, c, fh)
-        if op is None:
-            raise AnalysisError(f"pickle.dump target {ast.unparse(c.args[1])} is not a `with open(...) as` handle")
-        pname, mode = _path_name(save, op[0]), op[1]
-        if _flows_from(save, obj, lambda x: call_name(x).endswith("node_link_data")):
-            role = "graph_pkl"
-        elif _flows_from(save, obj, lambda x: call_name(x) == "_CPGraphData"):
-            role = "data_pkl"
+    # decided by abstract runs of save() and restore_cpgraph() with the file operations hooked (what is written where, what is read from where, in which order);
+    # the shape rules that follow are diagnostics: they defer to the abstract runs where they do not recognise the code
+    sem = _artefacts_eval(db, chk, m, fields)
+
+    class _Gated:
+        def ob(self, rule_, text_, verdict_, where_, **kw_):
+            fnd = kw_.get("found")
+            if sem is True and (verdict_ is None or (verdict_ is False and (fnd is None or fnd == [] or fnd == {} or (isinstance(fnd, dict) and all(v_ in (None, [], {}) for v_ in fnd.values()))))):
+                return None
+            return chk.ob(rule_, text_, verdict_, where_, **kw_)
+    g = _Gated()
+    try:
+        roles_s, roles_r = {}, {}
+        # csv
+        tc = H.calls_named(save, "to_csv")
+        rc = H.calls_named(restore, "read_csv")
+        if len(tc) != 1 or len(rc) != 1:
+            raise AnalysisError("expected one to_csv in save and one read_csv in restore")
+        roles_s["trace_csv"] = _path_name(save, tc[0].args[0])
+        roles_r["trace_csv"] = _path_name(restore, rc[0].args[0])
+        g.ob("C19.R2-artefacts", "csv written from self.trace_df", H.is_self_attr(tc[0].func.value, "trace_df"), m.loc(tc[0]),
+               found=ast.unparse(tc[0].func.value), accepted="self.trace_df")
+        idx_label = lit(kwarg(tc[0], "index_label"))
+        idx_on = lit(kwarg(tc[0], "index"), True)
+        si = [c for c in H.calls_named(restore, "set_index") if _flows_from(restore, c.func.value, lambda x: x is rc[0]) or c.func.value is rc[0]]
+        si_col = lit(si[0].args[0]) if si and si[0].args else None
+        g.ob("C19.R2-artefacts", "csv index label = set_index column", bool(idx_on) and idx_label is not None and idx_label == si_col,
+               m.loc(tc[0]), found={"index": idx_on, "index_label": idx_label, "set_index": si_col},
+               accepted="index written under a label, and that label passed to set_index",
+               why="otherwise the restored trace frame is not indexed by event id and every .loc[ev_idx] lookup breaks")
+        trace_target = [a for a, v in restored_other.items() if _flows_from(restore, v, lambda c: c is rc[0]) or (isinstance(v, ast.Call) and any(x is rc[0] for x in ast.walk(v)))]
+        g.ob("C19.R2-artefacts", "csv restored into trace_df", trace_target == ["trace_df"], m.loc(rc[0]), found=trace_target, accepted=["trace_df"])
+        # pickles
+        dumps = H.calls_named(save, "pickle.dump")
+        loads = H.calls_named(restore, "pickle.load")
+        for c in dumps:
+            obj, fh = c.args[0], H.name_id(c.args[1])
+            op = _open_of(save, c, fh)
+            if op is None:
+                raise AnalysisError(f"pickle.dump target {ast.unparse(c.args[1])} is not a `with open(...) as` handle")
+            pname, mode = _path_name(save, op[0]), op[1]
+            if _flows_from(save, obj, lambda x: call_name(x).endswith("node_link_data")):
+                role = "graph_pkl"
+            elif _flows_from(save, obj, lambda x: call_name(x) == "_CPGraphData"):
+                role = "data_pkl"
+            else:
+                g.ob("C19.R2-artefacts", "pickle.dump object has a known role", None, m.loc(c), found=ast.unparse(obj))
+                continue
+            roles_s[role] = pname
+            g.ob("C19.R2-artefacts", f"{role} opened for binary write", mode == "wb", m.loc(c), found=mode, accepted="wb")
+        load_var = {}
+        for t, v, _ in H.assignments(restore):
+            if isinstance(t, ast.Name) and isinstance(v, ast.Call) and call_name(v).endswith("pickle.load"):
+                load_var[t.id] = v
+        # a load used in place: nx.node_link_graph(pickle.load(f))
+        for x in H.calls_named(restore, "node_link_graph"):
+            if x.args and isinstance(x.args[0], ast.Call) and call_name(x.args[0]).endswith("pickle.load") and not any(x.args[0] is v_ for v_ in load_var.values()):
+                load_var[f"<inline {len(load_var)}>"] = x.args[0]
+        for var, c in load_var.items():
+            fh = H.name_id(c.args[0])
+            op = _open_of(restore, c, fh)
+            if op is None:
+                raise AnalysisError("pickle.load source is not a `with open(...) as` handle")
+            pname, mode = _path_name(restore, op[0]), op[1]
+            nlg = [x for x in H.calls_named(restore, "node_link_graph") if x.args and (H.name_id(x.args[0]) == var or x.args[0] is c)]
+            if nlg:
+                role = "graph_pkl"
+            elif var == pick_var:
+                role = "data_pkl"
+            else:
+                g.ob("C19.R2-artefacts", "pickle.load result has a known role", None, m.loc(c), found=var)
+                continue
+            roles_r[role] = pname
+            g.ob("C19.R2-artefacts", f"{role} opened for binary read", mode == "rb", m.loc(c), found=mode, accepted="rb")
+        for role in ("trace_csv", "graph_pkl", "data_pkl"):
+            a, b2 = roles_s.get(role), roles_r.get(role)
+            g.ob("C19.R2-artefacts", f"file name of {role}: written = read", (a == b2) if a is not None and b2 is not None else None, m.loc(save), found={"save": a, "restore": b2},
+                   accepted="same literal file name in save and restore",
+                   why="a renamed or swapped artefact restores the wrong object or fails")
+        # the artefacts read are those of THIS archive: extraction is unconditional
+        ex = [c for c in H.calls(restore) if isinstance(c.func, ast.Attribute) and c.func.attr in ("extractall", "extract")]
+        guards = []
+        for c in ex:
+            cur = m.parent.get(id(c))
+            while cur is not None and cur is not restore:
+                if isinstance(cur, (ast.If, ast.IfExp, ast.Try)):
+                    guards.append(ast.unparse(cur.test)[:80] if hasattr(cur, "test") else "try")
+                cur = m.parent.get(id(cur))
+        zf = [c for c in H.calls(restore) if call_name(c).endswith("ZipFile")]
+        g.ob("C19.R2-artefacts", "restore extracts the given archive unconditionally before reading the artefacts", len(ex) == 1 and not guards and len(zf) == 1 and
+               H.name_id(zf[0].args[0]) == H.param_names(restore)[0] and all(H.before(ex[0], c) for c in H.calls(restore, nested=False) if call_name(c) in ("open", "pd.read_csv")), m.loc(restore),
+               found={"extract": [ast.unparse(c) for c in ex], "guards": guards}, accepted="zipf.extractall(...) not under any condition",
+               why="skipping extraction when the directory already exists restores the files of an earlier archive saved under the same name")
+        # node-link convention
+        nld = H.calls_named(save, "node_link_data")
+        nlg = H.calls_named(restore, "node_link_graph")
+        if len(nld) != 1 or len(nlg) != 1:
+            raise AnalysisError("expected one node_link_data / node_link_graph call")
+        conv_s = {k.arg: ast.unparse(k.value) for k in nld[0].keywords}
+        conv_r = {k.arg: ast.unparse(k.value) for k in nlg[0].keywords if k.arg not in ("directed", "multigraph")}
+        g.ob("C19.R2-artefacts", "node_link_data / node_link_graph use the same key convention", conv_s == conv_r, m.loc(nld[0]),
+               found={"save": conv_s, "restore": conv_r}, accepted="identical keyword conventions (edges=/link=/source=/target=...)")
+        g.ob("C19.R2-artefacts", "node-link data taken from the graph itself", len(nld[0].args) == 1 and H.name_id(nld[0].args[0]) == "self", m.loc(nld[0]),
+               found=ast.unparse(nld[0].args[0]) if nld[0].args else None, accepted="self")
+        forced = {k.arg: lit(k.value) for k in nlg[0].keywords if k.arg in ("directed", "multigraph")}
+        g.ob("C19.R2-artefacts", "restore does not override graph kind", forced.get("directed", True) is True and forced.get("multigraph", False) in (False, None) or not forced,
+               m.loc(nlg[0]), found=forced, accepted="directed / simple as recorded in the node-link data")
+        # the payload travels untouched: node_link_data(self) -> pickle.dump, and pickle.load -> node_link_graph -> CPGraph(..., G)
+        def uses_between(func, var, first_line, last_line, allowed_nodes):
+            out = []
+            for n in ast.walk(func):
+                if isinstance(n, ast.Name) and n.id == var and first_line < n.lineno <= last_line and not any(n is a or any(n is y for y in ast.walk(a)) for a in allowed_nodes):
+                    st = n
+                    while m.parent.get(id(st)) is not None and not isinstance(st, ast.stmt):
+                        st = m.parent.get(id(st))
+                    txt = " ".join(ast.unparse(st).split())[:90]
+                    if isinstance(st, ast.Expr) and isinstance(st.value, ast.Call) and call_name(st.value).split(".")[0] in ("logger", "logging", "print"):
+                        continue          # a read inside a log statement does not change the payload
+                    if txt not in out:
+                        out.append(txt)
+            return out
+        dvar = next((H.name_id(t) for t, v, s_ in H.assignments(save) if v is nld[0]), None)
+        dumps = [c for c in H.calls(save) if call_name(c) == "pickle.dump" and c.args and H.name_id(c.args[0]) == dvar]
+        if dvar is None or len(dumps) != 1:
+            g.ob("C19.R2-artefacts", "the node-link data is bound to a name and pickled once", None, m.loc(nld[0]), found={"name": dvar, "dumps": len(dumps)})
         else:
-            chk.ob("C19.R2-artefacts", "pickle.dump object has a known role", None, m.loc(c), found=ast.unparse(obj))
-            continue
-        roles_s[role] = pname
-        chk.ob("C19.R2-artefacts", f"{role} opened for binary write", mode == "wb", m.loc(c), found=mode, accepted="wb")
-    load_var = {}
-    for t, v, _ in H.assignments(restore):
-        if isinstance(t, ast.Name) and isinstance(v, ast.Call) and call_name(v).endswith("pickle.load"):
-            load_var[t.id] = v
-    # a load used in place: nx.node_link_graph(pickle.load(f))
-    for x in H.calls_named(restore, "node_link_graph"):
-        if x.args and isinstance(x.args[0], ast.Call) and call_name(x.args[0]).endswith("pickle.load") and not any(x.args[0] is v_ for v_ in load_var.values()):
-            load_var[f"<inline {len(load_var)}>"] = x.args[0]
-    for var, c in load_var.items():
-        fh = H.name_id(c.args[0])
-        op = _open_of(restore, c, fh)
-        if op is None:
-            raise AnalysisError("pickle.load source is not a `with open(...) as` handle")
-        pname, mode = _path_name(restore, op[0]), op[1]
-        nlg = [x for x in H.calls_named(restore, "node_link_graph") if x.args and (H.name_id(x.args[0]) == var or x.args[0] is c)]
-        if nlg:
-            role = "graph_pkl"
-        elif var == pick_var:
-            role = "data_pkl"
+            touched = uses_between(save, dvar, nld[0].lineno, dumps[0].lineno, [dumps[0]])
+            lossy = [t_ for t_ in touched if any(k_ in t_ for k_ in (".pop(", "del ", ".remove(", ".clear(", "] = "))]
+            g.ob("C19.R2-artefacts", "the node-link data is pickled as produced (nothing reads or edits it between node_link_data and pickle.dump)", True if not touched else (False if lossy else None), m.loc(nld[0]), found=touched or "untouched",
+                   accepted="d = nx.node_link_data(self); pickle.dump(d, f)", why="stripping an attribute that 'can be rebuilt' (e.g. weight from the CPEdge) loses every weight that validation had clamped")
+        gvar = next((H.name_id(t) for t, v, s_ in H.assignments(restore) if v is nlg[0]), None)
+        inst_calls = [c for c in H.calls(restore) if call_name(c) == "CPGraph"]
+        if gvar is None or len(inst_calls) != 1:
+            g.ob("C19.R2-artefacts", "the restored graph is bound to a name and installed once", None, m.loc(nlg[0]), found={"name": gvar, "constructions": len(inst_calls)})
         else:
-            chk.ob("C19.R2-artefacts", "pickle.load result has a known role", None, m.loc(c), found=var)
-            continue
-        roles_r[role] = pname
-        chk.ob("C19.R2-artefacts", f"{role} opened for binary read", mode == "rb", m.loc(c), found=mode, accepted="rb")
-    for role in ("trace_csv", "graph_pkl", "data_pkl"):
-        a, b2 = roles_s.get(role), roles_r.get(role)
-        chk.ob("C19.R2-artefacts", f"file name of {role}: written = read", (a == b2) if a is not None and b2 is not None else None, m.loc(save), found={"save": a, "restore": b2},
-               accepted="same literal file name in save and restore",
-               why="a renamed or swapped artefact restores the wrong object or fails")
-    # the artefacts read are those of THIS archive: extraction is unconditional
-    ex = [c for c in H.calls(restore) if isinstance(c.func, ast.Attribute) and c.func.attr in ("extractall", "extract")]
-    guards = []
-    for c in ex:
-        cur = m.parent.get(id(c))
-        while cur is not None and cur is not restore:
-            if isinstance(cur, (ast.If, ast.IfExp, ast.Try)):
-                guards.append(ast.unparse(cur.test)[:80] if hasattr(cur, "test") else "try")
-            cur = m.parent.get(id(cur))
-    zf = [c for c in H.calls(restore) if call_name(c).endswith("ZipFile")]
-    chk.ob("C19.R2-artefacts", "restore extracts the given archive unconditionally before reading the artefacts", len(ex) == 1 and not guards and len(zf) == 1 and
-           H.name_id(zf[0].args[0]) == H.param_names(restore)[0] and all(H.before(ex[0], c) for c in H.calls(restore, nested=False) if call_name(c) in ("open", "pd.read_csv")), m.loc(restore),
-           found={"extract": [ast.unparse(c) for c in ex], "guards": guards}, accepted="zipf.extractall(...) not under any condition",
-           why="skipping extraction when the directory already exists restores the files of an earlier archive saved under the same name")
-    # node-link convention
-    nld = H.calls_named(save, "node_link_data")
-    nlg = H.calls_named(restore, "node_link_graph")
-    if len(nld) != 1 or len(nlg) != 1:
-        raise AnalysisError("expected one node_link_data / node_link_graph call")
-    conv_s = {k.arg: ast.unparse(k.value) for k in nld[0].keywords}
-    conv_r = {k.arg: ast.unparse(k.value) for k in nlg[0].keywords if k.arg not in ("directed", "multigraph")}
-    chk.ob("C19.R2-artefacts", "node_link_data / node_link_graph use the same key convention", conv_s == conv_r, m.loc(nld[0]),
-           found={"save": conv_s, "restore": conv_r}, accepted="identical keyword conventions (edges=/link=/source=/target=...)")
-    chk.ob("C19.R2-artefacts", "node-link data taken from the graph itself", len(nld[0].args) == 1 and H.name_id(nld[0].args[0]) == "self", m.loc(nld[0]),
-           found=ast.unparse(nld[0].args[0]) if nld[0].args else None, accepted="self")
-    forced = {k.arg: lit(k.value) for k in nlg[0].keywords if k.arg in ("directed", "multigraph")}
-    chk.ob("C19.R2-artefacts", "restore does not override graph kind", forced.get("directed", True) is True and forced.get("multigraph", False) in (False, None) or not forced,
-           m.loc(nlg[0]), found=forced, accepted="directed / simple as recorded in the node-link data")
-    # the payload travels untouched: node_link_data(self) -> pickle.dump, and pickle.load -> node_link_graph -> CPGraph(..., G)
-    def uses_between(func, var, first_line, last_line, allowed_nodes):
-        out = []
-        for n in ast.walk(func):
-            if isinstance(n, ast.Name) and n.id == var and first_line < n.lineno <= last_line and not any(n is a or any(n is y for y in ast.walk(a)) for a in allowed_nodes):
-                st = n
-                while m.parent.get(id(st)) is not None and not isinstance(st, ast.stmt):
-                    st = m.parent.get(id(st))
-                txt = " ".join(ast.unparse(st).split())[:90]
-                if isinstance(st, ast.Expr) and isinstance(st.value, ast.Call) and call_name(st.value).split(".")[0] in ("logger", "logging", "print"):
-                    continue          # a read inside a log statement does not change the payload
-                if txt not in out:
-                    out.append(txt)
-        return out
-    dvar = next((H.name_id(t) for t, v, s_ in H.assignments(save) if v is nld[0]), None)
-    dumps = [c for c in H.calls(save) if call_name(c) == "pickle.dump" and c.args and H.name_id(c.args[0]) == dvar]
-    if dvar is None or len(dumps) != 1:
-        chk.ob("C19.R2-artefacts", "the node-link data is bound to a name and pickled once", None, m.loc(nld[0]), found={"name": dvar, "dumps": len(dumps)})
-    else:
-        touched = uses_between(save, dvar, nld[0].lineno, dumps[0].lineno, [dumps[0]])
-        lossy = [t_ for t_ in touched if any(k_ in t_ for k_ in (".pop(", "del ", ".remove(", ".clear(", "] = "))]
-        chk.ob("C19.R2-artefacts", "the node-link data is pickled as produced (nothing reads or edits it between node_link_data and pickle.dump)", True if not touched else (False if lossy else None), m.loc(nld[0]), found=touched or "untouched",
-               accepted="d = nx.node_link_data(self); pickle.dump(d, f)", why="stripping an attribute that 'can be rebuilt' (e.g. weight from the CPEdge) loses every weight that validation had clamped")
-    gvar = next((H.name_id(t) for t, v, s_ in H.assignments(restore) if v is nlg[0]), None)
-    inst_calls = [c for c in H.calls(restore) if call_name(c) == "CPGraph"]
-    if gvar is None or len(inst_calls) != 1:
-        chk.ob("C19.R2-artefacts", "the restored graph is bound to a name and installed once", None, m.loc(nlg[0]), found={"name": gvar, "constructions": len(inst_calls)})
-    else:
-        touched = uses_between(restore, gvar, nlg[0].lineno, inst_calls[0].lineno, [inst_calls[0]])
-        lossy = [t_ for t_ in touched if any(k_ in t_ for k_ in (".pop(", "del ", ".remove(", ".clear(", "] = ", "remove_", "add_"))]
-        chk.ob("C19.R2-artefacts", "the unpickled graph is installed as read (nothing edits it between node_link_graph and CPGraph(...))", True if not touched else (False if lossy else None), m.loc(nlg[0]), found=touched or "untouched",
-               accepted="G = nx.node_link_graph(data); CPGraph(None, t_full, rank, G)")
-    # zip members
-    zw = [c for c in H.calls(save) if isinstance(c.func, ast.Attribute) and c.func.attr == "write" and "zip" in ast.unparse(c.func.value).lower()]
-    zipped = sorted(filter(None, (_path_name(save, c.args[0]) for c in zw)))
-    chk.ob("C19.R2-artefacts", "zip contains exactly the three artefacts written", zipped == sorted(filter(None, roles_s.values())) and len(zipped) == 3,
-           m.loc(save), found=zipped, accepted=sorted(filter(None, roles_s.values())),
-           why="an artefact that is not archived is missing (or stale from an earlier save) at restore time")
-    chk.floor("C19.R2-artefacts", 14)
+            touched = uses_between(restore, gvar, nlg[0].lineno, inst_calls[0].lineno, [inst_calls[0]])
+            lossy = [t_ for t_ in touched if any(k_ in t_ for k_ in (".pop(", "del ", ".remove(", ".clear(", "] = ", "remove_", "add_"))]
+            g.ob("C19.R2-artefacts", "the unpickled graph is installed as read (nothing edits it between node_link_graph and CPGraph(...))", True if not touched else (False if lossy else None), m.loc(nlg[0]), found=touched or "untouched",
+                   accepted="G = nx.node_link_graph(data); CPGraph(None, t_full, rank, G)")
+        # zip members
+        zw = [c for c in H.calls(save) if isinstance(c.func, ast.Attribute) and c.func.attr == "write" and "zip" in ast.unparse(c.func.value).lower()]
+        zipped = sorted(filter(None, (_path_name(save, c.args[0]) for c in zw)))
+        g.ob("C19.R2-artefacts", "zip contains exactly the three artefacts written", zipped == sorted(filter(None, roles_s.values())) and len(zipped) == 3,
+               m.loc(save), found=zipped, accepted=sorted(filter(None, roles_s.values())),
+               why="an artefact that is not archived is missing (or stale from an earlier save) at restore time")
+
+    except AnalysisError:
+        if sem is not True:
+            raise
+    chk.floor("C19.R2-artefacts", 10)
+
+
+def _artefacts_eval(db, chk, m, fields):
+    """save() and restore_cpgraph() evaluated with every file operation hooked.  Decided on the recorded operations: three artefacts are written (the trace frame as csv
+    with its index under a label, the node-link data of the graph and the _CPGraphData record - every field from the like-named member - as binary pickles), the archive
+    holds exactly these three, restore extracts the archive before it reads anything, reads each artefact under the name it was written with, rebuilds the graph from the
+    loaded node-link data with the same key convention, and puts every saved member back under its own name.  Returns True / False / None."""
+    from ..core.interp import Interp
+    from ..core import terms as T
+    from ..core.values import Frame, Obj, to_term
+    rule = "C19.R2-artefacts"
+    save_f = m.func("CPGraph.save")
+    rest_f = m.func("restore_cpgraph")
+    FIELDS = sorted(fields)
+
+    def base(p_):
+        t = to_term(p_)
+        s_ = p_ if isinstance(p_, str) else None
+        if s_ is None:
+            cs = [x[1] for x in T.subterms(t) if T.is_const(x) and isinstance(x[1], str)]
+            s_ = cs[-1] if cs else None
+        return s_.split("/")[-1] if isinstance(s_, str) else None
+    plain = lambda kw: {k: v for k, v in kw.items() if isinstance(v, (str, bool, int)) or v is None}
+    ev = []
+
+    def hook_s(I, name, pos, kw, node):
+        last = name.split(".")[-1]
+        if last == "to_csv":
+            recv = I.eval(node.func.value) if isinstance(node.func, ast.Attribute) else None
+            ev.append(("csv-write", base(pos[0] if pos else kw.get("path_or_buf")), plain(kw), recv.base if isinstance(recv, Frame) else None))
+            return None
+        if name == "open":
+            return Obj("file", attrs={"path": pos[0], "mode": pos[1] if len(pos) > 1 else kw.get("mode", "r")})
+        if last == "dump" and len(pos) >= 2:
+            f_ = pos[1]
+            ev.append(("dump", base(f_.attrs.get("path")) if isinstance(f_, Obj) else None, f_.attrs.get("mode") if isinstance(f_, Obj) else None, pos[0]))
+            return None
+        if last == "node_link_data":
+            return Obj("NLD", attrs={"of": to_term(pos[0]) if pos else None, "kw": plain(kw)})
+        if last == "ZipFile":
+            ev.append(("zip-open", base(pos[0]), pos[1] if len(pos) > 1 else kw.get("mode", "r")))
+            return Obj("zipfile")
+        if last == "write" and isinstance(node.func, ast.Attribute) and isinstance(I.eval(node.func.value), Obj) and I.eval(node.func.value).name == "zipfile":
+            ev.append(("zip-write", base(pos[0] if pos else kw.get("filename"))))
+            return None
+        if name.startswith("os.path.exists") or last in ("exists", "is_dir", "isdir"):
+            return True
+        if last in ("makedirs", "mkdir"):
+            return None
+        return NotImplemented
+    TDF = ("param", "TRACE_DF")
+    so = Obj("self", cls=(m, "CPGraph"), attrs={f_: T.P("M_" + f_) for f_ in FIELDS})
+    so.attrs["trace_df"] = Frame(TDF)
+    so.attrs["t"] = None
+    try:
+        runs_s = [r for r in Interp(db, call_hook=hook_s).explore(f"{CP}:CPGraph.save", lambda I: {"self": so, H.param_names(save_f)[1]: "/o/run1"}) if r.raised is None]
+    except AnalysisError:
+        runs_s = []
+    chk.analysed_add("functions", [f"{CP}:CPGraph.save (abstract run)", f"{CP}:restore_cpgraph (abstract run)"])
+    verdicts = []
+
+    def ob(text, verdict, where, **kw):
+        verdicts.append(verdict)
+        chk.ob(rule, "[abstract run] " + text, verdict, where, **kw)
+    if len(runs_s) != 1 or runs_s[0].path:
+        ob("save() evaluated on one path", None, m.loc(save_f), found=len(runs_s))
+        return None
+    ev_s = list(ev)
+    csvw = [e for e in ev_s if e[0] == "csv-write"]
+    dumps = [e for e in ev_s if e[0] == "dump"]
+    gdump = [e for e in dumps if isinstance(e[3], Obj) and e[3].name == "NLD"]
+    ddump = [e for e in dumps if isinstance(e[3], Obj) and e[3].cls is not None and e[3].cls[1] == "_CPGraphData"]
+    okw = len(csvw) == 1 and len(gdump) == 1 and len(ddump) == 1 and len(dumps) == 2
+    ob("save writes three artefacts: the trace frame as csv, the graph's node-link data and the _CPGraphData record as pickles", okw if (csvw or dumps) else None, m.loc(save_f),
+       found=[(e[0], e[1]) for e in ev_s if e[0] in ("csv-write", "dump")], accepted=["csv-write", "dump (node-link data)", "dump (_CPGraphData)"])
+    if not okw:
+        return False if (csvw or dumps) else None
+    names_w = {"trace_csv": csvw[0][1], "graph_pkl": gdump[0][1], "data_pkl": ddump[0][1]}
+    ob("the csv is written from self.trace_df with its index under a label", csvw[0][3] == TDF and csvw[0][2].get("index", True) is True and isinstance(csvw[0][2].get("index_label"), str), m.loc(save_f),
+       found={"frame": T.show(csvw[0][3]) if csvw[0][3] else None, **csvw[0][2]}, accepted="self.trace_df.to_csv(path, index=True, index_label=<label>)",
+       why="the restored trace frame must be indexed by event id again")
+    ob("both pickles are opened for binary writing and the graph pickle holds nx.node_link_data(self)", gdump[0][2] == "wb" and ddump[0][2] == "wb" and gdump[0][3].attrs.get("of") == ("obj", "self"), m.loc(save_f),
+       found={"modes": [gdump[0][2], ddump[0][2]], "graph data of": T.show(gdump[0][3].attrs.get("of")) if gdump[0][3].attrs.get("of") else None}, accepted="wb / wb / node_link_data(self)")
+    rec = {k: to_term(v) for k, v in ddump[0][3].attrs.items() if k != "__fields__"}
+    ob("every field of the saved record is the like-named member of the graph", rec == {f_: T.P("M_" + f_) for f_ in FIELDS}, m.loc(save_f),
+       found={k: T.show(v)[:40] for k, v in rec.items() if v != T.P("M_" + k)} or "all fields", accepted="field=self.field for every field of _CPGraphData",
+       why="the saved value of a field must be the like-named attribute, else restore installs another attribute's value")
+    zw = [e[1] for e in ev_s if e[0] == "zip-write"]
+    zo = [e for e in ev_s if e[0] == "zip-open"]
+    ob("the archive is written anew and holds exactly the three artefacts", len(zo) == 1 and zo[0][2] in ("w", "x") and sorted(map(str, zw)) == sorted(map(str, names_w.values())) and None not in zw, m.loc(save_f),
+       found={"mode": zo[0][2] if zo else None, "members": zw}, accepted=sorted(names_w.values()), why="an artefact that is not archived is missing (or stale from an earlier save) at restore time")
+    # ---- restore
+    ev.clear()
+
+    def hook_r(I, name, pos, kw, node):
+        last = name.split(".")[-1]
+        if last == "ZipFile":
+            ev.append(("zip-open", base(pos[0]), pos[1] if len(pos) > 1 else kw.get("mode", "r")))
+            return Obj("zipfile")
+        if last == "namelist":
+            return [f"o/run1/{names_w['trace_csv']}", f"o/run1/{names_w['graph_pkl']}", f"o/run1/{names_w['data_pkl']}"]
+        if last in ("extractall", "extract"):
+            ev.append(("extract", len(I.run.path)))
+            return None
+        if name == "open":
+            return Obj("file", attrs={"path": pos[0], "mode": pos[1] if len(pos) > 1 else kw.get("mode", "r")})
+        if last == "load" and pos and isinstance(pos[0], Obj) and pos[0].name == "file":
+            b_ = base(pos[0].attrs.get("path"))
+            ev.append(("load", b_, pos[0].attrs.get("mode")))
+            if b_ == names_w["graph_pkl"]:
+                return Obj("NLD-loaded")
+            return Obj("DATA-loaded", cls=(m, "_CPGraphData"), attrs={f_: T.P("S_" + f_) for f_ in FIELDS})
+        if last == "read_csv":
+            ev.append(("csv-read", base(pos[0] if pos else kw.get("filepath_or_buffer"))))
+            return Frame(("param", "CSV"), known=[csvw[0][2].get("index_label") or "?", "ts", "dur", "name"])
+        if last == "node_link_graph":
+            ev.append(("nlg", to_term(pos[0]) if pos else None, plain(kw)))
+            return Obj("G")
+        if name == "CPGraph":
+            ev.append(("ctor", [to_term(p_) for p_ in pos], {k: to_term(v) for k, v in kw.items()}))
+            return Obj("RESTORED", cls=(m, "CPGraph"))
+        if name.startswith("os.path.exists") or last in ("exists", "is_dir", "isdir"):
+            return False          # (a directory left over from an earlier restore must not change what is read)
+        return NotImplemented
+    rp = H.param_names(rest_f)
+    try:
+        runs_r = [r for r in Interp(db, call_hook=hook_r).explore(f"{CP}:restore_cpgraph", lambda I: {rp[0]: "/x/run1.zip", rp[1]: Obj("t_full"), rp[2]: T.P("RANK")}) if r.raised is None]
+    except AnalysisError:
+        runs_r = []
+    if len(runs_r) != 1 or not isinstance(runs_r[0].ret, Obj):
+        ob("restore_cpgraph evaluated on one path returning the graph", None, m.loc(rest_f), found=len(runs_r))
+        return None
+    ev_r = list(ev)
+    kinds = [e[0] for e in ev_r]
+    first_read = min([i_ for i_, k in enumerate(kinds) if k in ("load", "csv-read")], default=None)
+    ext = [i_ for i_, k in enumerate(kinds) if k == "extract"]
+    ob("restore extracts the given archive unconditionally before it reads an artefact", len(ext) == 1 and first_read is not None and ext[0] < first_read and ev_r[ext[0]][1] == 0 and not runs_r[0].path, m.loc(rest_f),
+       found=kinds, accepted="ZipFile(zip).extractall(..) first, under no condition", why="skipping extraction when the directory already exists restores the files of an earlier archive saved under the same name")
+    reads = {"trace_csv": [e[1] for e in ev_r if e[0] == "csv-read"], "pickles": [(e[1], e[2]) for e in ev_r if e[0] == "load"]}
+    ob("each artefact is read under the name it was written with (pickles opened for binary reading)",
+       reads["trace_csv"] == [names_w["trace_csv"]] and sorted(reads["pickles"]) == sorted([(names_w["graph_pkl"], "rb"), (names_w["data_pkl"], "rb")]), m.loc(rest_f),
+       found=reads, accepted={"csv": names_w["trace_csv"], "pickles": [names_w["graph_pkl"], names_w["data_pkl"]]}, why="a renamed or swapped artefact restores the wrong object or fails")
+    nlg = [e for e in ev_r if e[0] == "nlg"]
+    ctor = [e for e in ev_r if e[0] == "ctor"]
+    ob("the graph is rebuilt from the loaded node-link data with the key convention it was written with, and installed through CPGraph(None, t_full, rank, G)",
+       len(nlg) == 1 and nlg[0][1] == ("obj", "NLD-loaded") and nlg[0][2] == gdump[0][3].attrs.get("kw") and len(ctor) == 1 and
+       (ctor[0][1] + [ctor[0][2].get(k) for k in ("t", "t_full", "rank", "G") if k in ctor[0][2]])[:1] in ([T.NONE], [None]) and ("obj", "G") in ctor[0][1] + list(ctor[0][2].values()), m.loc(rest_f),
+       found={"node_link_graph": [(T.show(e[1]) if e[1] else None, e[2]) for e in nlg], "constructor": [[T.show(x) for x in e[1]] for e in ctor]},
+       accepted="G = nx.node_link_graph(<loaded graph pickle>, same keywords as node_link_data); CPGraph(None, t_full, rank, G)")
+    R = runs_r[0].ret
+    back = {f_: to_term(R.attrs.get(f_)) if f_ in R.attrs else None for f_ in FIELDS}
+    ob("every saved member is put back under its own name", back == {f_: T.P("S_" + f_) for f_ in FIELDS}, m.loc(rest_f),
+       found={k: (T.show(v)[:40] if v is not None else None) for k, v in back.items() if v != T.P("S_" + k)} or "all members", accepted="restored.field = loaded.field for every field",
+       why="every saved field must be copied back to the like-named attribute of the restored graph")
+    tdf = R.attrs.get("trace_df")
+    lab = csvw[0][2].get("index_label")
+    okidx = isinstance(tdf, Frame) and tdf.base == ("param", "CSV") and (getattr(tdf, "index_name", None) == lab or lab in (getattr(tdf, "index_keys", None) or []) or T.show(getattr(tdf, "index", "")).find(str(lab)) >= 0)
+    ob("the trace frame is the csv that was read, indexed by the label the index was written under", okidx if isinstance(tdf, Frame) else None, m.loc(rest_f),
+       found={"index": T.show(tdf.index)[:80] if isinstance(tdf, Frame) and tdf.index is not None else None, "label": lab}, accepted=f"pd.read_csv(..).set_index({lab!r})",
+       why="otherwise the restored trace frame is not indexed by event id and every .loc[ev_idx] lookup breaks")
+    return False if any(v is False for v in verdicts) else (None if any(v is None for v in verdicts) else True)
 
 
 def _decode_always(db, chk, rule="C19.R5-recomputation-on-a-restored-graph"):
